@@ -36,6 +36,8 @@ def plans_for(rng, inp, k, cls):
                 "seed=%d,max_us=50,slow=%s:%d" % (sd(), sl, rng.randrange(2600000, 3500001)),
                 "seed=%d,max_us=0,slow=%s:3500000,poll_us=200" % (sd(), sl),
                 "seed=%d,max_us=300" % sd()]
+    if cls == "crowd":
+        return [None, "seed=%d,max_us=200" % sd(), "seed=%d,max_us=0,poll_us=300" % sd()]
     pool = [None,
             "seed=%d,max_us=300" % sd(),
             "seed=%d,max_us=0,poll_us=2000" % sd(),                               # slow coordinator: channels fill, workers block
@@ -67,6 +69,13 @@ def gen(rng, cls, max_src):
         return mu.blocked_input(rng, opts_choices=OPTS)
     if cls == "subus":
         return mu.subus_input(rng, rng.choice([2, 3, 4, 6]), rng.choice([3, 6, 12]), opts_choices=OPTS)
+    if cls == "crowd":
+        # more sources than any plausible cap on worker threads, each with more datums than one
+        # channel holds (FileInfo + >= 6 messages + summary > CHANNEL_CAPACITY): every worker is
+        # blocked in send while the coordinator still waits for the first datum of the others
+        return mu.gen_input(rng, rng.randrange(66, 141), rng.choice([16, 24]), allow_unsorted=False, allow_window=False,
+                            allow_container=False, allow_dir=False, opts_choices=OPTS, big=True, allow_junk=False,
+                            allow_utmp=False)
     if cls == "wide":
         return mu.gen_input(rng, rng.randrange(9, max_src + 1), rng.choice([4, 12]), opts_choices=OPTS)
     return mu.gen_input(rng, rng.randrange(1, 9), rng.choice([4, 10, 40]), opts_choices=OPTS)
@@ -112,13 +121,18 @@ def run(ctx):
         mu.write_input(inp, os.path.join(scratch, "blocked%02d" % k), rng.randrange(1000))
         inputs.append(inp)
         classes.append("blocked")
+    for k in range(1 if quick else 6):
+        inp = gen(rng, "crowd", max_src)
+        mu.write_input(inp, os.path.join(scratch, "crowd%02d" % k), rng.randrange(1000))
+        inputs.append(inp)
+        classes.append("crowd")
     for k in range(n_inputs):
         cls = ["mix", "subus", "early", "big", "mix", "early", "wide", "subus"][k % 8]
         inp = gen(rng, cls, max_src)
         mu.write_input(inp, os.path.join(scratch, "in%04d" % k), rng.randrange(1000))
         inputs.append(inp)
         classes.append(cls)
-    n_fixed = sum(1 for c in classes if c in ("corpus", "fixture", "blocked"))
+    n_fixed = sum(1 for c in classes if c in ("corpus", "fixture", "blocked", "crowd"))
     jobs, meta = [], []
     for ii, inp in enumerate(inputs):
         for pi, plan in enumerate(plans_for(rng, inp, n_plans, classes[ii])):
@@ -237,7 +251,7 @@ def run(ctx):
     walls = sorted(r["wall"] for r in results)
     ctx.coverage.update(
         evaluations=len(results), distinct_nontrivial=nontriv,
-        rule="instants are nanoseconds (timestamps with 6-9 fractional digits); input classes: blocked (a fast source of 12-80 messages, i.e. well over CHANNEL_CAPACITY+1 datums, next to a slow source of 1-2 messages inside the fast source's time range whose every send is delayed 2.6-3.5 s by the plan: the fast worker sits in send on its full channel for seconds; 5 plans: unplanned reference, three multi-second plans, one fast random plan), subus (sources whose messages fall inside the same microsecond, the later-named source holding the earlier one, mixed with exact ties), corpus (corpus/C06, hand-picked ties), fixture (2-6 utmp / evtx / journal files of /repo/logs in several compressed variants; instants read back from s4's own -u -d prefix), mix (1-8 text sources, 0-40 messages, ties, gz/xz, non-chronological, emptied by -a/-b, failing sources without timestamps, directory argument), early (2-6 sources of 1-3 messages: a worker ends before others start; one source delayed 20 ms per send), big (2-4 sources of 60-300 messages: channels of capacity 5 stay full under a slow coordinator), wide (9-%d sources); each input under %d planned schedules (no delay; random per-send delays; slow coordinator poll_us; one slow source; combinations). distinct_nontrivial counts DISTINCT (input, coordinator event sequence) pairs over inputs with >= 2 sources, i.e. distinct observed interleavings" % (max_src, n_plans),
+        rule="instants are nanoseconds (timestamps with 6-9 fractional digits); input classes: blocked (a fast source of 12-80 messages, i.e. well over CHANNEL_CAPACITY+1 datums, next to a slow source of 1-2 messages inside the fast source's time range whose every send is delayed 2.6-3.5 s by the plan: the fast worker sits in send on its full channel for seconds; 5 plans: unplanned reference, three multi-second plans, one fast random plan), subus (sources whose messages fall inside the same microsecond, the later-named source holding the earlier one, mixed with exact ties), corpus (corpus/C06, hand-picked ties), fixture (2-6 utmp / evtx / journal files of /repo/logs in several compressed variants; instants read back from s4's own -u -d prefix), mix (1-8 text sources, 0-40 messages, ties, gz/xz, non-chronological, emptied by -a/-b, failing sources without timestamps, directory argument), early (2-6 sources of 1-3 messages: a worker ends before others start; one source delayed 20 ms per send), big (2-4 sources of 60-300 messages: channels of capacity 5 stay full under a slow coordinator), wide (9-%d sources), crowd (66-140 sources of 8-24 messages each: more worker threads than any cap, every worker blocked in send before the first print; 3 plans); each input under %d planned schedules (no delay; random per-send delays; slow coordinator poll_us; one slow source; combinations). distinct_nontrivial counts DISTINCT (input, coordinator event sequence) pairs over inputs with >= 2 sources, i.e. distinct observed interleavings" % (max_src, n_plans),
         samples=[dict(mu.describe(inputs[i]), cls=classes[i], plans=[results[ri]["plan"] for ri in by_input[i]][:4],
                       distinct_interleavings=len(distinct_traces.get(i, ()))) for i in (0, n_fixed, n_fixed + 2, n_fixed + 3)],
         inputs=len(inputs), plans_per_input=n_plans, input_class_histogram=cls_hist,
